@@ -110,6 +110,9 @@ def _events():
        {"s": {"STRICT_PARSING": "True", "CACHE_SIZE_LIMIT": "500"}})
     ev("fail: STRICT_PARSING 1, CACHE 500.0 (compare equal to valid values)", lambda a: P("March 2015", languages=["en"], settings=a["s"]),
        {"s": {"STRICT_PARSING": 1, "CACHE_SIZE_LIMIT": 500.0}})
+    # the same numbers through both calendar parsers: a conversion remembered by one must not answer for the other
+    ev("jalali 1394/06/26", lambda a: JalaliCalendar("1394/06/26").get_date())
+    ev("hijri 1394/06/26", lambda a: HijriCalendar("1394/06/26").get_date())
     ev("fail: unknown setting", lambda a: P("2015-03-02", settings=a["s"]), {"s": {"BOGUS": 1}})
     ev("fail: unknown language", lambda a: P("2015-03-02", languages=a["l"]), {"l": ["xx"]})
     ev("fail: non-str", lambda a: P(5))
